@@ -269,6 +269,7 @@ func pollBounded(d *core.Term, want string) bool {
 func runC08(c *Ctx) {
 	R := c.R
 	checkPollDeadline(c)
+	checkLookupsConcurrent(c, "R08.6")
 	fs := ModReach(c.P, c08Roots(c)...)
 	R.Analysed["run_path_functions"] = len(fs)
 	nprim := 0
@@ -644,6 +645,32 @@ func readDeadline(c *Ctx, f *ssa.Function, read *ssa.Call, src ssa.Value) (bool,
 	return false, "no SetReadDeadline on the same source dominates the read"
 }
 
+// governingDeadline: the SetReadDeadline call on the same source that dominates the read (the one readDeadline accepts).
+func governingDeadline(c *Ctx, f *ssa.Function, read *ssa.Call, src ssa.Value) *ssa.Call {
+	srcKey := ""
+	for _, pa := range firstPath(f, read.Block()) {
+		srcKey = core.NewEnv(c.P, pa).Term(src).Key()
+	}
+	var last *ssa.Call
+	for _, b := range f.Blocks {
+		for _, in := range b.Instrs {
+			cl, ok := in.(*ssa.Call)
+			if !ok || !cl.Common().IsInvoke() || cl.Common().Method.Name() != "SetReadDeadline" || !core.InstrDominates(cl, read) {
+				continue
+			}
+			for _, pa := range firstPath(f, cl.Block()) {
+				if core.NewEnv(c.P, pa).Term(cl.Common().Value).Key() == srcKey {
+					// the closest one wins: a later dominating call re-arms the earlier
+					if last == nil || core.InstrDominates(last, cl) {
+						last = cl
+					}
+				}
+			}
+		}
+	}
+	return last
+}
+
 // checkLoops is R08.2.
 func checkLoops(c *Ctx, fs []*ssa.Function) {
 	R := c.R
@@ -778,12 +805,22 @@ func classifyLoop(c *Ctx, f *ssa.Function, h *ssa.BasicBlock, loop map[*ssa.Basi
 				continue
 			}
 			name := core.CalleeName(call.Common())
-			if name != "packets.ReadAndParse" && name != "(*os.File).Read" && name != "iface:packets.Source.Read" {
+			k, okd, why := blockingCall(c, f, call)
+			if k != "capture-read" && name != "(*os.File).Read" || !okd {
 				continue
 			}
-			k, okd, why := blockingCall(c, f, call)
-			if k == "" || !okd {
-				continue
+			// the deadline that bounds this loop is armed ONCE, before the loop: a deadline re-armed inside it is pushed out by
+			// every packet that arrives and is skipped, so a trickle of unrelated packets keeps the loop alive for ever
+			if k == "capture-read" {
+				src := call.Common().Value
+				if !call.Common().IsInvoke() {
+					if idx := sourceReadWrapper(c, call.Common().StaticCallee(), 0); idx >= 0 {
+						src = call.Common().Args[idx]
+					}
+				}
+				if dl := governingDeadline(c, f, call, src); dl != nil && loop[dl.Block()] {
+					return "", "the read deadline that is this loop's only bound is re-armed on every iteration (" + c.P.PosStr(dl.Pos()) + "): each packet that arrives and is skipped pushes it out, so unrelated traffic keeps the loop alive for ever"
+				}
 			}
 			// some exit is control-dependent on this call's error
 			for _, e := range exits {
@@ -824,7 +861,7 @@ func classifyLoop(c *Ctx, f *ssa.Function, h *ssa.BasicBlock, loop map[*ssa.Basi
 				if dep && everyIter(b) {
 					// ReadAndParse hands the deadline over wrapped in the retryable no-packet class: a
 					// CheckProbeRetryable→continue test evaluated BEFORE the deadline test swallows it
-					if name == "packets.ReadAndParse" {
+					if k == "capture-read" && !call.Common().IsInvoke() {
 						if sw := deadlineSwallowed(f, loop, call); sw != "" {
 							return "", sw
 						}
